@@ -19,8 +19,8 @@ type Val struct {
 	Data []byte
 	Sec  int64
 	Nsec int64
-	P    *Val     // p: nil = nil pointer
-	L    []*Val   // l, r
+	P    *Val      // p: nil = nil pointer
+	L    []*Val    // l, r
 	M    [][2]*Val // m
 }
 
